@@ -149,6 +149,7 @@ type Failure struct {
 
 // Report is what a vh-cXX binary hands back to ./check.
 type Report struct {
+	failPerSig map[string]int // failures seen per clause/signature (unexported: not written to report.json)
 	Property           string                 `json:"property"`
 	Seed               uint64                 `json:"seed"`
 	Tier               string                 `json:"tier"`
@@ -173,8 +174,15 @@ func NewReport(prop string, seed uint64, tier string) *Report {
 		MonitorFailures: []Failure{}, Samples: []interface{}{}, CaseInputs: map[string]interface{}{}}
 }
 
+// Fail records a monitor failure. The list is bounded per signature (the first 25 failures of each
+// signature are kept, the rest only counted), never globally: failures of a recorded known finding, however
+// many, must not push an unlisted failure out of the report.
 func (r *Report) Fail(c int, clause, sig, detail string, input interface{}) {
-	if len(r.MonitorFailures) < 200 {
+	if r.failPerSig == nil {
+		r.failPerSig = map[string]int{}
+	}
+	r.failPerSig[clause+"/"+sig]++
+	if r.failPerSig[clause+"/"+sig] <= 25 && len(r.MonitorFailures) < 5000 {
 		r.MonitorFailures = append(r.MonitorFailures, Failure{c, clause, sig, detail, input})
 	}
 }
